@@ -232,7 +232,7 @@ pub fn special_texts(thorough: bool) -> Vec<(&'static str, String, Fmt, Vec<u8>)
         out.push(("long_line.no_newline_at_all", n.to_string(), Fmt::Tiny, long.clone().into_bytes()));
     }
     // many lines
-    for &n in if thorough { &[1000usize, 100_000][..] } else { &[1000usize, 20_000][..] } {
+    for &n in if thorough { &[1000usize, 100_000, 131_073][..] } else { &[1000usize, 20_000, 16_385][..] } {
         let mut s = String::from("tiny\t2\t0\ta\tb\n"); for k in 0..n { s += &format!("c\tA{k}\tB{k}\n\tf\tI\tf{k}\tg{k}\n"); }
         out.push(("many_lines.tiny", n.to_string(), Fmt::Tiny, s.into_bytes()));
         let mut s = String::new(); for k in 0..n { s += &format!("CLASS A{k} B{k}\n\tCOMMENT c\n\tCOMMENT d\n"); }
@@ -269,7 +269,7 @@ pub fn desc_mutants(seed: &[u8]) -> Vec<Mutant> {
 
 pub fn special_descs(thorough: bool) -> Vec<(&'static str, String, Vec<u8>)> {
     let mut out = vec![];
-    let sizes: &[usize] = if thorough { &[0, 1, 254, 255, 256, 257, 1000, 65535, 65536, 1 << 20, 1 << 24] } else { &[0, 1, 254, 255, 256, 257, 1000, 65535, 65536, 1 << 20] };
+    let sizes: &[usize] = if thorough { &[0, 1, 254, 255, 256, 257, 1000, 65535, 65536, 1 << 20, (1 << 20) + 1, 1 << 24, (1 << 24) + 1] } else { &[0, 1, 254, 255, 256, 257, 1000, 65535, 65536, 1 << 20, (1 << 20) + 1] };
     for &n in sizes {
         out.push(("desc_ladder.array_dimensions", n.to_string(), format!("{}I", "[".repeat(n)).into_bytes()));
         out.push(("desc_ladder.array_dimensions_object", n.to_string(), format!("{}La;", "[".repeat(n)).into_bytes()));
